@@ -710,6 +710,7 @@ pub fn compare_traces(t0: &[Ev], t1: &[Ev]) -> Cmp {
 pub const PASSES: &[&str] = &["expression_propagation", "trivial_expression_substitution", "dead_variable_elimination", "control_flow_propagation", "stack_alignment_substitution"];
 
 pub fn apply_pass(project: &mut Project, pass: &str) {
+    set_stage(pass);
     match pass {
         "expression_propagation" => analysis::expression_propagation::propagate_input_expression(project),
         "trivial_expression_substitution" => project.substitute_trivial_expressions(),
@@ -903,11 +904,49 @@ pub fn check_callother_project(base: &Project, state_seed: u64, n_states: usize,
     rep.merge(tmp);
 }
 
+/// CPU-time bound for all passes and reference runs of one generated program (normal: a few milliseconds).
+const PASS_CPU_LIMIT_MS: u64 = 20_000;
+
+/// The passes run on a helper thread with a CPU-time bound: a pass that does not terminate is reported, not waited for.
+pub fn check_bounded(worker: &mut BoundedWorker, project: &Project, state_seed: u64, n_states: usize, callother: bool, rep: &mut Report) {
+    if ABANDONED_THREADS.load(std::sync::atomic::Ordering::SeqCst) >= ABANDONED_CAP {
+        rep.inconclusive("program-skipped-after-repeated-non-termination");
+        return;
+    }
+    let p2 = project.clone();
+    let bounded = worker.run(PASS_CPU_LIMIT_MS, move || {
+        let mut local = Report::new();
+        if callother {
+            check_callother_project(&p2, state_seed, n_states, &mut local);
+        } else {
+            check_project(&p2, state_seed, n_states, &mut local);
+        }
+        local
+    });
+    match bounded {
+        Bounded::Done(local) => rep.merge(local),
+        Bounded::Hang { cpu_ms, stage } => {
+            rep.eval();
+            let size: u64 = project.program.term.subs.values().map(|s| s.term.blocks.iter().map(|b| 2 + b.term.defs.len() as u64).sum::<u64>()).sum();
+            rep.violation(
+                format!("{stage}:no-termination"),
+                None,
+                format!("pass {stage} had not returned after {cpu_ms} ms of CPU time on a program of {size} terms (a normal run takes well under 10 ms); abandoned\n{}", show_program(&project.program.term)),
+                json!({"project": project_to_json(project), "state_seed": state_seed, "n_states": n_states, "workload": if callother { "callother" } else { "main" }}),
+                size,
+            );
+        }
+        Bounded::Starved => rep.inconclusive("helper-thread-starved"),
+        Bounded::Died => rep.inconclusive("helper-thread-died"),
+    }
+}
+
 fn run(cfg: &Cfg) -> Report {
     let shards = cfg.tier.pick(1024usize, 2048usize);
     let per_shard = cfg.tier.pick(40usize, 50usize);
     let n_states = cfg.tier.pick(16usize, 64usize);
     par_shards(cfg, "c10", shards, |idx, rng, rep| {
+        let mut worker = BoundedWorker::new();
         for i in 0..per_shard {
             let callother = idx % 8 == 7;
             let project = match guard(|| gen_project(rng, false, callother)) {
@@ -918,13 +957,8 @@ fn run(cfg: &Cfg) -> Report {
                 }
             };
             let state_seed = rng.next_u64();
-            if callother {
-                check_callother_project(&project, state_seed, n_states, rep);
-                rep.obs("workload:callother");
-            } else {
-                check_project(&project, state_seed, n_states, rep);
-                rep.obs("workload:main");
-            }
+            check_bounded(&mut worker, &project, state_seed, n_states, callother, rep);
+            rep.obs(if callother { "workload:callother" } else { "workload:main" });
             if idx == 0 && i < 2 {
                 rep.sample(json!({"program": show_program(&project.program.term), "state_seed": state_seed, "initial_states": n_states}));
             }
@@ -938,11 +972,7 @@ fn replay(_cfg: &Cfg, case: &Value) -> Report {
         Ok(project) => {
             let seed = case["state_seed"].as_u64().unwrap_or(1);
             let n = case["n_states"].as_u64().unwrap_or(16) as usize;
-            if case["workload"] == json!("callother") {
-                check_callother_project(&project, seed, n, &mut rep);
-            } else {
-                check_project(&project, seed, n, &mut rep);
-            }
+            check_bounded(&mut BoundedWorker::new(), &project, seed, n, case["workload"] == json!("callother"), &mut rep);
         }
         Err(e) => rep.note(format!("cannot parse replay case: {e}")),
     }
